@@ -1041,7 +1041,7 @@ func (r *vpRunner) genAndRun(g *vpRng, maxOps int, prop string) {
 	// load comparisons beyond the handful of calls of an ordinary history)
 	heavy := 0
 	if r.nhist == 7 || r.nhist == 23 || ((prop == "C09" || prop == "C02" || prop == "C03") && (r.nhist == 55 || r.nhist == 90)) {
-		heavy = 1 + g.intn(2)
+		heavy = 1 + g.intn(3)
 		if prop == "C09" {
 			heavy = 1
 		} else if prop == "C03" {
@@ -1049,9 +1049,17 @@ func (r *vpRunner) genAndRun(g *vpRng, maxOps int, prop string) {
 		}
 		if heavy == 1 { // round-robin BIND over two channels, one of them loaded with bound calls
 			h.a = []int64{2, 2, 0, 0, 0, 0, 1, 0}
-		} else { // growth at the DEFAULT watermark
+		} else if heavy == 2 { // growth at the DEFAULT watermark
 			h.a = []int64{1, g.pick([]int64{2, 3}), 0, 0, 0, 0, 0, 0}
+		} else { // many affinity keys
+			n := g.pick([]int64{2, 3, 4})
+			h.a = []int64{n, n, 100, g.pick([]int64{0, 1}), 0, 0, 0, 0}
 		}
+	}
+	if (prop == "C01" || prop == "C08") && (r.nhist == 55 || r.nhist == 90) {
+		heavy = 3
+		n := g.pick([]int64{2, 3, 4})
+		h.a = []int64{n, n, 100, g.pick([]int64{0, 1}), 0, 0, 0, 0}
 	}
 	r.start(h)
 	if heavy > 0 {
@@ -1079,6 +1087,40 @@ func (r *vpRunner) genAndRun(g *vpRng, maxOps int, prop string) {
 			}
 			for q := 0; q < 3 && !r.dead; q++ {
 				r.apply(vpOp{kind: "P", a: []int64{last(), 0, 1, -1, 0}})
+			}
+		} else if heavy == 3 {
+			nk := int(g.pick([]int64{130, 150, 260}))
+			for k := 1; k <= nk && !r.dead; k++ {
+				b := len(r.picks)
+				r.apply(vpOp{kind: "P", a: []int64{last(), 1, 1, -1, 0}})
+				if len(r.picks) > b && r.picks[b].placed && !r.dead {
+					r.apply(vpOp{kind: "D", a: []int64{int64(b), 0}, keys: []int{k}})
+				}
+			}
+			use := func(m int64, k int) {
+				b := len(r.picks)
+				r.apply(vpOp{kind: "P", a: []int64{last(), m, 1, -1, 0}, keys: []int{k}})
+				if len(r.picks) > b && r.picks[b].placed && !r.dead && g.chance(70) {
+					r.apply(vpOp{kind: "D", a: []int64{int64(b), 0}, keys: []int{k}})
+				}
+			}
+			for q := 0; q < 25 && !r.dead; q++ {
+				use(2, 1+g.intn(nk))
+			}
+			if len(r.cc.scs) > 0 && !r.dead { // one channel goes away and comes back
+				r.apply(vpOp{kind: "C", a: []int64{0, 3}})
+				for q := 0; q < 6 && !r.dead; q++ {
+					use(2, 1+g.intn(nk))
+				}
+				r.apply(vpOp{kind: "C", a: []int64{0, 2}})
+			}
+			for q := 0; q < 12 && !r.dead; q++ {
+				k := 1 + g.intn(nk)
+				use(3, k)
+				use(2, k)
+			}
+			for q := 0; q < 10 && !r.dead; q++ {
+				use(2, 1+g.intn(nk))
 			}
 		} else {
 			nload := int(g.pick([]int64{99, 100, 101, 102}))
